@@ -321,7 +321,7 @@ def _resolves_to(expr, scope, targets):
 def r5(chk):
     # sample_from_cvrs: every sampled phantom card gets a phantom MVR with the same id
     for rel, q in ((DOM, "Dominion.sample_from_cvrs"), (HART, "Hart.sample_from_cvrs")):
-        fn = chk.fn(rel, q)
+        fn = chk.fn(rel, q, canonical=True)
         loops = [l for l in fn.body if isinstance(l, ast.For) and "sample" in norm(l.iter)]
         if not loops:
             raise AnalysisError(f"{q}: loop over the sample not found")
